@@ -16,8 +16,9 @@ A layout description (JSON-able dict):
     ro        (optional) write access nibble of the CC
 
 The builder places TLV bytes only on addresses that no control TLV reserves
-and makes sure the NDEF TLV's T and three possible L bytes are contiguous
-unreserved bytes (the quantifier's exclusion).  Reserved ranges are only ever
+and makes sure the NDEF TLV's T and L bytes are contiguous unreserved bytes
+(the quantifier's exclusion): T + 1 length byte where fewer than 259 bytes are
+available (a 3-byte length is never needed), T + 3 length bytes otherwise.  Reserved ranges are only ever
 declared for addresses behind the declaring TLV (or in front of the data
 area), so a reader always knows a reserved byte before it walks over it.
 """
@@ -102,9 +103,13 @@ def build(d, old=b"", filler=0x00, uid=None):
     while True:
         while pos in reserved:
             pos += 1
-        if pos + 4 > end:
+        # the length field is three bytes only where messages >= 255 bytes
+        # fit (259 or more unreserved bytes from here to the end)
+        room = len([a for a in range(pos, end) if a not in reserved])
+        need = 4 if room >= 259 else 2
+        if pos + need > end:
             return None
-        if nulls > 0 or any((pos + i) in reserved for i in range(1, 4)):
+        if nulls > 0 or any((pos + i) in reserved for i in range(1, need)):
             mem[pos] = 0x00
             pos += 1
             nulls -= 1
